@@ -3,6 +3,7 @@
   tree (`fixed = true`: the unlocked total is first reduced by what was already withdrawn).
 -/
 import Sge.Gen.Kernels
+import SgeProofs.Lemmas.KernelsTie
 import Sge.Subaccount
 namespace Sge.KernelsTie
 open Sge Sge.Subaccount Sge.Gen.Kernels
@@ -14,8 +15,7 @@ theorem krn_tie_SubWithdrawableUnlocked (s : Summary) (unlocked bank : Int) :
       s.withdrawableUnlocked true unlocked bank := by
   unfold subaccount_AccountSummary_WithdrawableUnlockedBalance subaccount_AccountSummary_Available
     Summary.withdrawableUnlocked Summary.available
-  simp only [if_true, minI, maxI, Int.min_def, Int.max_def]
-  (repeat' split) <;> omega
+  krn_close
 
 example : subaccount_AccountSummary_WithdrawableUnlockedBalance 100 0 30 0 50 1000 = 20 := by decide +kernel
 
